@@ -130,6 +130,17 @@ def decorate(m, rng):
         g2 = Group("super", name="all", kind="partonomy")
         g2.add_members([m.groups[0]] + list(m.reactions)[:1])
         m.add_groups([g2])
+    if rng.random() < 0.25 and len(m.reactions):
+        # objects of different kinds under one identifier (a reaction and a metabolite both called the same), listed in a group
+        r = m.reactions[rng.randint(0, len(m.reactions) - 1)]
+        if r.id not in m.metabolites:
+            try:
+                m.add_metabolites([Metabolite(r.id, compartment="c")])
+                gsame = Group("same_id", name="shared identifier", kind="collection")
+                gsame.add_members([r] if rng.random() < 0.6 else [m.metabolites.get_by_id(r.id)])
+                m.add_groups([gsame])
+            except Exception:
+                pass
     for g in m.groups:
         if rng.random() < 0.5:
             g.notes = {"g": "note"}
